@@ -63,7 +63,7 @@ func (k Keeper) GetExchangedPrice(
 		realPrice = sdk.OneDec()
 	}
 
-	return sdk.NewCoins(sdk.NewCoin(baseDenom, price.TruncateInt())), rawDenom, nil
+	return sdk.NewCoins(sdk.NewCoin(baseDenom, realPrice.TruncateInt())), rawDenom, nil
 }
 
 func CheckResult(jsonStr string) (string, string) {
